@@ -79,6 +79,20 @@ func (g *wktGen) wexpr(e ast.Expr) string {
 			}
 			return g.recv + "." + leanName(t.Sel.Name)
 		}
+	case *ast.SliceExpr:
+		// x[0:n] -> take n;  x[n:len(x)] -> drop n   (Go panics when n > len(x): the tie carries that as a hypothesis)
+		if t.Slice3 || t.Low == nil || t.High == nil {
+			break
+		}
+		lo, lok := t.Low.(*ast.BasicLit)
+		if lok && lo.Kind == token.INT && lo.Value == "0" {
+			if hi, ok := t.High.(*ast.BasicLit); ok && hi.Kind == token.INT {
+				return "(" + g.wexpr(t.X) + ".take " + hi.Value + ")"
+			}
+		}
+		if lok && lo.Kind == token.INT && g.src(t.High) == "len("+g.src(t.X)+")" {
+			return "(" + g.wexpr(t.X) + ".drop " + lo.Value + ")"
+		}
 	case *ast.ParenExpr:
 		return "(" + g.wexpr(t.X) + ")"
 	case *ast.UnaryExpr:
@@ -126,6 +140,10 @@ func (g *wktGen) wexpr(e ast.Expr) string {
 					return "(abs " + g.wexpr(t.Args[0]) + ")"
 				case pk.Name == "math" && sel.Sel.Name == "Sqrt" && len(t.Args) == 1:
 					return "(sqrt " + g.wexpr(t.Args[0]) + ")"
+				case pk.Name == "strings" && sel.Sel.Name == "HasSuffix" && len(t.Args) == 2:
+					return "(hasSuffix " + g.wexpr(t.Args[0]) + " " + g.wexpr(t.Args[1]) + ")"
+				case pk.Name == "strings" && sel.Sel.Name == "Contains" && len(t.Args) == 2:
+					return "(containsSub " + g.wexpr(t.Args[0]) + " " + g.wexpr(t.Args[1]) + ")"
 				case pk.Name == "strings" && sel.Sel.Name == "ToLower" && len(t.Args) == 1:
 					return "(toLower " + g.wexpr(t.Args[0]) + ")"
 				case pk.Name == "strings" && sel.Sel.Name == "TrimSuffix" && len(t.Args) == 2:
@@ -182,6 +200,8 @@ func (g *wktGen) isStr(e ast.Expr) bool {
 	case *ast.BinaryExpr:
 		return t.Op == token.ADD && (g.isStr(t.X) || g.isStr(t.Y))
 	case *ast.ParenExpr:
+		return g.isStr(t.X)
+	case *ast.SliceExpr:
 		return g.isStr(t.X)
 	}
 	return false
@@ -359,6 +379,18 @@ func wktGenOut(repo string) string {
 	fmt.Fprintf(&b, "/-- the first two statements and the last statement of `wkt` (source text) -/\ndef genWktHead : String := %q\ndef genWktReturn : String := %q\n", first, last)
 	b.WriteString("/-- the statements of `wkt` between the call of `parseWKTSection` and the `return`, translated -/\n")
 	b.WriteString("def genWktFinish (sr : SR α) : SR α :=\n" + body + "\n\n")
+
+	// ---- datumRename
+	g.recv = "sr"
+	body = "untranslated_missing_datumRename"
+	if fd := funcs["datumRename"]; fd != nil {
+		if fd.Recv != nil && len(fd.Recv.List) == 1 && len(fd.Recv.List[0].Names) == 1 {
+			g.recv = fd.Recv.List[0].Names[0].Name
+		}
+		body = g.block(fd.Body.List, "  ")
+	}
+	b.WriteString("/-- `(*SR).datumRename`, translated (the slice expressions `s[0:2]`, `s[2:len(s)]` as `take` / `drop`: they panic on a code shorter than 2 bytes) -/\n")
+	fmt.Fprintf(&b, "def genDatumRename (%s : SR α) : SR α :=\n%s\n\n", g.recv, body)
 
 	// ---- parseWKTUnit: the statements that use the conversion factor
 	body = "untranslated_missing_parseWKTUnit"
